@@ -780,6 +780,18 @@ func TestC14_Rapid(t *testing.T) {
 				if string(s) != string(b) || string(y) != string(b) || string(quickfix.FIXString(b).Write()) != string(b) || string(quickfix.FIXBytes(b).Write()) != string(b) {
 					c14fail(t, "string", "roundtrip", "identity", string(b), "differs")
 				}
+				// the string read is a value: the caller's buffer is reused for the next message
+				// (bytes.Buffer.Reset, a scratch slice refilled) and the string stays what was read
+				if len(b) > 0 {
+					want := string(append([]byte(nil), b...))
+					for i := range b {
+						b[i] ^= 0x55
+					}
+					if string(s) != want || string(s.Write()) != want {
+						c14fail(t, "string", "roundtrip", "changed-when-the-source-bytes-were-reused", want, string(s))
+					}
+					c.Class("string-bytes:source-reused-after-read")
+				}
 			}
 		})
 	})
